@@ -455,6 +455,9 @@ class Interp:
         ci = self.prog.const_int(self.m, ast.Call(func=N("len"), args=[n], keywords=[]), self.func.cls)
         if ci is not None:
             return C(ci)
+        if isinstance(n, ast.Call) and norm(n.func) in ("bytes", "bytearray") and len(n.args) == 1 and not n.keywords \
+                and self.prog.const_int(self.m, n.args[0], self.func.cls) is not None:
+            return C(self.prog.const_int(self.m, n.args[0], self.func.cls))      # bytes(N): N zero bytes
         if isinstance(n, ast.BinOp) and isinstance(n.op, ast.Mult):
             for a, b in ((n.left, n.right), (n.right, n.left)):
                 if isinstance(a, ast.Constant) and isinstance(a.value, bytes):
